@@ -56,6 +56,7 @@ def step (st : St) (ws : List String) : St × String :=
   | ["fire"] => apply st .fire
   | ["close"] => apply st .close
   | ["recv"] => apply st .recv
+  | ["late"] => apply st .late
   | ["dec", h] =>
     match natBytes h with
     | some b => (st, showDec (decodeBatch b))
